@@ -66,4 +66,4 @@ def run(r):
         regen()
     except Exception as e:
         r.proof_broken.append("translator gen_filters failed: %s" % e)
-    return standard(r, "c07", ["theories/C07/Proofs.vo"], ["theories/C07/Check.vo"], ["filters"], classify=classify)
+    return standard(r, "c07", ["theories/C07/Proofs.vo", "theories/C07/LzwFull.vo"], ["theories/C07/Check.vo"], ["filters"], classify=classify)
